@@ -18,33 +18,56 @@ package pipeline
 // baseline instance (Init only, never inherited from, never closed) handles
 // the same requests so that the judge can tell an update-caused failure from a
 // failure the request would have had anyway.
+//
+// Kinds (extension auth11): every registered filter kind that can be instantiated
+// in-process offline has a generator in c11fKinds (18 kinds; the judge's @inventory
+// case compares the table with Model.HotUpdate.exercisedFilterKinds). TopicMapper,
+// MQTTClientAuth and ConnectControl get MQTT contexts (c11fMQTTCtx), HeaderLookup a
+// mock supervisor/cluster (c11fSuper), RemoteFilter talks to the local backend's
+// /remote* endpoints. Kafka, KafkaMQTT (broker) and WasmHost (build tag) are not run.
 
 import (
+	"crypto/sha256"
+	"encoding/hex"
 	"encoding/json"
 	"fmt"
+	"io"
 	"net/http"
 	"net/http/httptest"
 	"os"
 	"path/filepath"
 	"runtime/debug"
+	"sort"
+	"strconv"
 	"strings"
 	"sync"
 	"testing"
 	"time"
 
+	"github.com/eclipse/paho.mqtt.golang/packets"
+	"github.com/megaease/easegress/pkg/cluster"
+	"github.com/megaease/easegress/pkg/cluster/clustertest"
 	"github.com/megaease/easegress/pkg/context"
 	"github.com/megaease/easegress/pkg/filters"
 	_ "github.com/megaease/easegress/pkg/filters/builder"
 	_ "github.com/megaease/easegress/pkg/filters/certextractor"
+	_ "github.com/megaease/easegress/pkg/filters/connectcontrol"
 	_ "github.com/megaease/easegress/pkg/filters/corsadaptor"
 	_ "github.com/megaease/easegress/pkg/filters/fallback"
+	_ "github.com/megaease/easegress/pkg/filters/headerlookup"
+	_ "github.com/megaease/easegress/pkg/filters/headertojson"
+	_ "github.com/megaease/easegress/pkg/filters/meshadaptor"
 	_ "github.com/megaease/easegress/pkg/filters/mock"
+	_ "github.com/megaease/easegress/pkg/filters/mqttclientauth"
 	_ "github.com/megaease/easegress/pkg/filters/proxy"
 	_ "github.com/megaease/easegress/pkg/filters/ratelimiter"
+	_ "github.com/megaease/easegress/pkg/filters/remotefilter"
 	_ "github.com/megaease/easegress/pkg/filters/requestadaptor"
 	_ "github.com/megaease/easegress/pkg/filters/responseadaptor"
+	_ "github.com/megaease/easegress/pkg/filters/topicmapper"
 	_ "github.com/megaease/easegress/pkg/filters/validator"
 	"github.com/megaease/easegress/pkg/protocols/httpprot"
+	"github.com/megaease/easegress/pkg/protocols/mqttprot"
 	"github.com/megaease/easegress/pkg/supervisor"
 	"github.com/megaease/easegress/pkg/tracing"
 	"github.com/megaease/easegress/pkg/util/verifh"
@@ -55,7 +78,17 @@ type c11fReq struct {
 	Method string            `json:"method"`
 	Path   string            `json:"path"`
 	Hdr    map[string]string `json:"hdr,omitempty"`
+	Body   string            `json:"body,omitempty"`
+	// MQTT kinds (TopicMapper, MQTTClientAuth, ConnectControl): the packet the context carries
+	Pkt    string `json:"pkt,omitempty"` // connect | publish | subscribe | disconnect
+	Client string `json:"client,omitempty"`
+	User   string `json:"user,omitempty"`
+	Pass   string `json:"pass,omitempty"`
+	Topic  string `json:"topic,omitempty"`
 }
+
+// c11fMQTTKinds handle MQTT contexts (mqttprot.Request / mqttprot.Response), not HTTP ones.
+var c11fMQTTKinds = map[string]bool{"TopicMapper": true, "MQTTClientAuth": true, "ConnectControl": true, "KafkaMQTT": true}
 
 type c11fOp struct {
 	G   int     `json:"g"` // 0 = old generation, 1 = new generation
@@ -77,9 +110,17 @@ type c11fOut struct {
 	Panic  string `json:"panic,omitempty"`
 	Result string `json:"result"`
 	Status int    `json:"status"`
+	// Eff: canonical digest of what Handle did to the context besides result/status (request
+	// method, path, headers and payload for HTTP; disconnect/drop flags and the context data keys
+	// for MQTT). Compared with the never-updated baseline instance.
+	Eff string `json:"eff,omitempty"`
 }
 
 type c11fObs struct {
+	// inventory case only: the generator table of this harness and the kinds registered in this binary
+	Generators []string `json:"generators,omitempty"`
+	Registered []string `json:"registered,omitempty"`
+
 	Err  string    `json:"err,omitempty"`
 	Note string    `json:"note,omitempty"`
 	Pre  []c11fOut `json:"pre"`
@@ -96,6 +137,27 @@ var (
 func c11fSetup() {
 	c11fOnce.Do(func() {
 		c11fBackend = httptest.NewServer(http.HandlerFunc(func(w http.ResponseWriter, r *http.Request) {
+			if strings.HasPrefix(r.URL.Path, "/remote") {
+				// RemoteFilter protocol: the posted context entity comes back with one more request header
+				var ent map[string]interface{}
+				if err := json.NewDecoder(r.Body).Decode(&ent); err != nil {
+					w.WriteHeader(400)
+					return
+				}
+				if rq, ok := ent["request"].(map[string]interface{}); ok {
+					h, _ := rq["header"].(map[string]interface{})
+					if h == nil {
+						h = map[string]interface{}{}
+					}
+					h["X-Remote"] = []interface{}{strings.TrimPrefix(r.URL.Path, "/remote")}
+					rq["header"] = h
+				}
+				if r.URL.Path == "/remote205" {
+					w.WriteHeader(205)
+				}
+				json.NewEncoder(w).Encode(ent)
+				return
+			}
 			w.Header().Set("X-Backend", "b")
 			w.WriteHeader(200)
 			w.Write([]byte("ok"))
@@ -116,6 +178,19 @@ func c11fSubst(v interface{}) interface{} {
 	case map[string]interface{}:
 		m := map[string]interface{}{}
 		for k, x := range t {
+			if strings.HasSuffix(k, "@int") {
+				// JSON has no integer keys: {"headers@int": {"0": "a"}} stands for headers: {0: a}
+				im := map[int]interface{}{}
+				if sm, ok := x.(map[string]interface{}); ok {
+					for ks, v := range sm {
+						if n, err := strconv.Atoi(ks); err == nil {
+							im[n] = c11fSubst(v)
+						}
+					}
+				}
+				m[strings.TrimSuffix(k, "@int")] = im
+				continue
+			}
 			m[k] = c11fSubst(x)
 		}
 		return m
@@ -129,7 +204,10 @@ func c11fSubst(v interface{}) interface{} {
 	return v
 }
 
-func c11fCtx(r c11fReq) *context.Context {
+func c11fCtx(r c11fReq, mqtt bool) *context.Context {
+	if mqtt {
+		return c11fMQTTCtx(r)
+	}
 	m := r.Method
 	if m == "" {
 		m = "GET"
@@ -138,7 +216,11 @@ func c11fCtx(r c11fReq) *context.Context {
 	if !strings.HasPrefix(p, "/") {
 		p = "/" + p
 	}
-	stdr, err := http.NewRequest(m, "http://example.com"+p, http.NoBody)
+	var body io.Reader = http.NoBody
+	if r.Body != "" {
+		body = strings.NewReader(r.Body)
+	}
+	stdr, err := http.NewRequest(m, "http://example.com"+p, body)
 	if err != nil {
 		stdr, _ = http.NewRequest("GET", "http://example.com/", http.NoBody)
 	}
@@ -154,6 +236,79 @@ func c11fCtx(r c11fReq) *context.Context {
 	resp.SetStatusCode(299) // "no filter touched the response"
 	ctx.SetResponse(context.DefaultNamespace, resp)
 	return ctx
+}
+
+// c11fMQTTCtx builds the context MQTTProxy's broker hands to a pipeline (broker.go newContext):
+// an mqttprot.Request around a paho control packet + a mock client, and an empty mqttprot.Response.
+func c11fMQTTCtx(r c11fReq) *context.Context {
+	var pkt packets.ControlPacket
+	switch r.Pkt {
+	case "connect":
+		c := packets.NewControlPacket(packets.Connect).(*packets.ConnectPacket)
+		c.ClientIdentifier, c.Username, c.Password = r.Client, r.User, []byte(r.Pass)
+		pkt = c
+	case "subscribe":
+		sp := packets.NewControlPacket(packets.Subscribe).(*packets.SubscribePacket)
+		sp.Topics, sp.Qoss = []string{r.Topic}, []byte{0}
+		pkt = sp
+	case "disconnect":
+		pkt = packets.NewControlPacket(packets.Disconnect)
+	default:
+		pp := packets.NewControlPacket(packets.Publish).(*packets.PublishPacket)
+		pp.TopicName, pp.Payload = r.Topic, []byte(r.Body)
+		pkt = pp
+	}
+	client := &mqttprot.MockClient{MockClientID: r.Client, MockUserName: r.User}
+	ctx := context.New(tracing.NoopSpan)
+	ctx.SetRequest(context.DefaultNamespace, mqttprot.NewRequest(pkt, client))
+	ctx.SetResponse(context.DefaultNamespace, mqttprot.NewResponse())
+	return ctx
+}
+
+// c11fEff: what Handle left in the context, canonicalised (sorted, no addresses, no times).
+func c11fEff(ctx *context.Context, mqtt bool) string {
+	var b strings.Builder
+	if mqtt {
+		if resp, ok := ctx.GetOutputResponse().(*mqttprot.Response); ok && resp != nil {
+			fmt.Fprintf(&b, "disconnect=%v drop=%v", resp.Disconnect(), resp.Drop())
+		}
+		for _, k := range []string{"topic", "headers"} {
+			switch v := ctx.GetData(k).(type) {
+			case string:
+				fmt.Fprintf(&b, " %s=%s", k, v)
+			case map[string]string:
+				ks := make([]string, 0, len(v))
+				for x := range v {
+					ks = append(ks, x)
+				}
+				sort.Strings(ks)
+				for _, x := range ks {
+					fmt.Fprintf(&b, " %s[%s]=%s", k, x, v[x])
+				}
+			}
+		}
+		return b.String()
+	}
+	req, ok := ctx.GetInputRequest().(*httpprot.Request)
+	if !ok || req == nil {
+		return "no-http-request"
+	}
+	fmt.Fprintf(&b, "%s %s", req.Method(), req.Path())
+	h := req.Std().Header
+	ks := make([]string, 0, len(h))
+	for k := range h {
+		ks = append(ks, k)
+	}
+	sort.Strings(ks)
+	for _, k := range ks {
+		fmt.Fprintf(&b, " %s=%s", k, strings.Join(h[k], ","))
+	}
+	if !req.IsStream() {
+		if pl := req.RawPayload(); len(pl) > 0 && len(pl) < 512 {
+			fmt.Fprintf(&b, " body=%s", pl)
+		}
+	}
+	return b.String()
 }
 
 // c11fFirstStack keeps the frames of the first panic of the current case (reported in obs.note).
@@ -181,7 +336,7 @@ type c11fHandler interface {
 	Handle(ctx *context.Context) string
 }
 
-func c11fHandle(h c11fHandler, r c11fReq) (out c11fOut) {
+func c11fHandle(h c11fHandler, r c11fReq, mqtt bool) (out c11fOut) {
 	defer func() {
 		if p := recover(); p != nil {
 			st := string(debug.Stack())
@@ -194,7 +349,7 @@ func c11fHandle(h c11fHandler, r c11fReq) (out c11fOut) {
 	if h == nil {
 		return c11fOut{Panic: "no-instance"}
 	}
-	ctx := c11fCtx(r)
+	ctx := c11fCtx(r, mqtt)
 	res := h.Handle(ctx)
 	out.Result = res
 	if resp := ctx.GetOutputResponse(); resp != nil {
@@ -202,10 +357,33 @@ func c11fHandle(h c11fHandler, r c11fReq) (out c11fOut) {
 			out.Status = hr.StatusCode()
 		}
 	}
+	out.Eff = c11fEff(ctx, mqtt)
 	return out
 }
 
-func c11fPipelineSpec(name string, f map[string]interface{}, res []map[string]interface{}) (ss *supervisor.Spec, err error) {
+// c11fSuper: a mock supervisor whose cluster answers HeaderLookup's etcd reads (custom data
+// "/custom-data/<prefix>/<header value>" = a small YAML map) and hands out a syncer whose channel
+// never fires. Only HeaderLookup cases use it; every other kind keeps the nil supervisor.
+func c11fSuper() *supervisor.Supervisor {
+	cls := clustertest.NewMockedCluster()
+	cls.MockedGet = func(key string) (*string, error) {
+		if strings.HasSuffix(key, "missing") {
+			return nil, nil
+		}
+		v := "ext-id: " + key[strings.LastIndex(key, "/")+1:] + "\nother: o\n"
+		return &v, nil
+	}
+	cls.MockedSyncer = func(time.Duration) (cluster.Syncer, error) {
+		sy := clustertest.NewMockedSyncer()
+		sy.MockedSyncPrefix = func(string) (<-chan map[string]string, error) {
+			return make(chan map[string]string), nil
+		}
+		return sy, nil
+	}
+	return supervisor.NewMock(nil, cls, sync.Map{}, sync.Map{}, nil, nil, false, nil, nil)
+}
+
+func c11fPipelineSpec(super *supervisor.Supervisor, name string, f map[string]interface{}, res []map[string]interface{}) (ss *supervisor.Spec, err error) {
 	defer func() {
 		if p := recover(); p != nil {
 			err = fmt.Errorf("%v", p)
@@ -223,17 +401,20 @@ func c11fPipelineSpec(name string, f map[string]interface{}, res []map[string]in
 	if err != nil {
 		return nil, err
 	}
+	if super != nil {
+		return super.NewSpec(string(b))
+	}
 	return supervisor.NewSpec(string(b))
 }
 
-func c11fFilterSpec(f map[string]interface{}) (spec filters.Spec, err error) {
+func c11fFilterSpec(super *supervisor.Supervisor, f map[string]interface{}) (spec filters.Spec, err error) {
 	defer func() {
 		if p := recover(); p != nil {
 			err = fmt.Errorf("%v", p)
 		}
 	}()
 	m, _ := c11fSubst(f).(map[string]interface{})
-	return filters.NewSpec(nil, "", m)
+	return filters.NewSpec(super, "", m)
 }
 
 func c11fGuard(what string, fn func()) (msg string) {
@@ -265,11 +446,21 @@ func c11fExec(raw json.RawMessage) interface{} {
 	}
 	c11fSetup()
 	var in c11fInput
+	if err := json.Unmarshal(raw, &in); err == nil && in.Kind == "@inventory" {
+		return c11fInventory()
+	}
 	if err := json.Unmarshal(raw, &in); err != nil || in.Old == nil || in.New == nil {
 		return c11fObs{Err: "bad-input"}
 	}
 	obs := c11fObs{Pre: []c11fOut{}, Ops: []c11fOut{}, Base: []c11fOut{}}
 	c11fFirstStack = ""
+	// the kind is read from the spec itself (the "kind" field of the input is only a label)
+	specKind, _ := in.Old["kind"].(string)
+	mqtt := c11fMQTTKinds[specKind]
+	var super *supervisor.Supervisor
+	if specKind == "HeaderLookup" {
+		super = c11fSuper()
+	}
 	var oldH, newH, baseOld, baseNew c11fHandler
 	var cleanup []func()
 	defer func() {
@@ -280,7 +471,7 @@ func c11fExec(raw json.RawMessage) interface{} {
 
 	if in.Level == "filter" {
 		mk := func(m map[string]interface{}) (filters.Filter, error) {
-			spec, err := c11fFilterSpec(m)
+			spec, err := c11fFilterSpec(super, m)
 			if err != nil {
 				return nil, err
 			}
@@ -302,7 +493,7 @@ func c11fExec(raw json.RawMessage) interface{} {
 		}
 		cleanup = append(cleanup, bo.Close, bn.Close)
 		for _, r := range in.Pre {
-			obs.Pre = append(obs.Pre, c11fHandle(fo, r))
+			obs.Pre = append(obs.Pre, c11fHandle(fo, r, mqtt))
 		}
 		if m := c11fGuard("inherit", func() { fn.Inherit(fo) }); m != "" {
 			obs.Err, obs.Note = "inherit-panic", m
@@ -319,8 +510,8 @@ func c11fExec(raw json.RawMessage) interface{} {
 		}
 		oldH, newH, baseOld, baseNew = fo, fn, bo, bn
 	} else {
-		so, err1 := c11fPipelineSpec("p", in.Old, in.Res)
-		sn, err2 := c11fPipelineSpec("p", in.New, in.Res)
+		so, err1 := c11fPipelineSpec(super, "p", in.Old, in.Res)
+		sn, err2 := c11fPipelineSpec(super, "p", in.New, in.Res)
 		if err1 != nil || err2 != nil {
 			return c11fObs{Err: "bad-spec", Note: fmt.Sprint(err1, err2)}
 		}
@@ -330,7 +521,7 @@ func c11fExec(raw json.RawMessage) interface{} {
 		}
 		cleanup = append(cleanup, bo.Close, bn.Close)
 		for _, r := range in.Pre {
-			obs.Pre = append(obs.Pre, c11fHandle(po, r))
+			obs.Pre = append(obs.Pre, c11fHandle(po, r, mqtt))
 		}
 		if m := c11fGuard("inherit", func() { pn.Inherit(sn, po, nil) }); m != "" {
 			obs.Err, obs.Note = "inherit-panic", m
@@ -342,11 +533,11 @@ func c11fExec(raw json.RawMessage) interface{} {
 
 	for _, op := range in.Ops {
 		if op.G == 0 {
-			obs.Ops = append(obs.Ops, c11fHandle(oldH, op.Req))
-			obs.Base = append(obs.Base, c11fHandle(baseOld, op.Req))
+			obs.Ops = append(obs.Ops, c11fHandle(oldH, op.Req, mqtt))
+			obs.Base = append(obs.Base, c11fHandle(baseOld, op.Req, mqtt))
 		} else {
-			obs.Ops = append(obs.Ops, c11fHandle(newH, op.Req))
-			obs.Base = append(obs.Base, c11fHandle(baseNew, op.Req))
+			obs.Ops = append(obs.Ops, c11fHandle(newH, op.Req, mqtt))
+			obs.Base = append(obs.Base, c11fHandle(baseNew, op.Req, mqtt))
 		}
 	}
 	obs.Note = c11fFirstStack
@@ -443,6 +634,45 @@ func c11fMutateRL(r *verifh.Rand, old map[string]interface{}) map[string]interfa
 type c11fKindGen struct {
 	kind string
 	gen  func(r *verifh.Rand) (old, nw map[string]interface{}, res []map[string]interface{})
+	req  func(r *verifh.Rand) c11fReq // nil: c11fReqGen
+}
+
+// c11fMQTTReqGen: packets for the MQTT kinds (client ids / topics / credentials collide with the specs below).
+func c11fMQTTReqGen(r *verifh.Rand) c11fReq {
+	return c11fReq{Pkt: r.Pick("connect", "publish", "publish", "publish", "subscribe", "disconnect"),
+		Client: r.Pick("c1", "c2", "bad1", ""), User: r.Pick("u", "u", "x"), Pass: r.Pick("p", "p", "q"),
+		Topic: r.Pick("t/1", "t/2", "/d2s/abc/phone/1/log/error", "/d2s/abc/car/2/raw", "d2s/x", "/g2s/a", ""), Body: r.Pick("", "pl")}
+}
+
+// c11fBodyReqGen: HTTP requests with a JSON / non-JSON body (HeaderToJSON, RemoteFilter).
+func c11fBodyReqGen(r *verifh.Rand) c11fReq {
+	q := c11fHdrReqGen(r)
+	q.Method = r.Pick("POST", "PUT", "GET")
+	q.Body = r.Pick("", "", `{"a":1}`, `[{"a":1},{"b":2}]`, "x")
+	return q
+}
+
+// c11fHdrReqGen: most requests carry the header the header-driven kinds look at.
+func c11fHdrReqGen(r *verifh.Rand) c11fReq {
+	q := c11fReqGen(r)
+	if r.Bool(2, 3) {
+		q.Hdr = map[string]string{"X-K": r.Pick("v1", "v2", "missing")}
+	}
+	return q
+}
+
+// c11fConnectReqGen: half of the packets are CONNECTs (the only packets MQTTClientAuth looks at).
+func c11fConnectReqGen(r *verifh.Rand) c11fReq {
+	q := c11fMQTTReqGen(r)
+	if r.Bool(1, 2) {
+		q.Pkt = "connect"
+	}
+	return q
+}
+
+func c11fSaltedPass(pass, salt string) string {
+	h := sha256.Sum256([]byte(pass + salt))
+	return hex.EncodeToString(h[:])
 }
 
 func c11fHeaderAdapt(r *verifh.Rand) map[string]interface{} {
@@ -450,11 +680,11 @@ func c11fHeaderAdapt(r *verifh.Rand) map[string]interface{} {
 }
 
 var c11fKinds = []c11fKindGen{
-	{"RateLimiter", func(r *verifh.Rand) (map[string]interface{}, map[string]interface{}, []map[string]interface{}) {
+	{kind: "RateLimiter", gen: func(r *verifh.Rand) (map[string]interface{}, map[string]interface{}, []map[string]interface{}) {
 		o := c11fRateLimiter(r)
 		return o, c11fMutateRL(r, o), nil
 	}},
-	{"Proxy", func(r *verifh.Rand) (map[string]interface{}, map[string]interface{}, []map[string]interface{}) {
+	{kind: "Proxy", gen: func(r *verifh.Rand) (map[string]interface{}, map[string]interface{}, []map[string]interface{}) {
 		mk := func() map[string]interface{} {
 			// every server carries a weight >= 1 (all-zero weights are C04's subject, not an update effect)
 			srv := []interface{}{map[string]interface{}{"url": "$BACKEND", "weight": r.PickInt(1, 2)}}
@@ -496,7 +726,7 @@ var c11fKinds = []c11fKindGen{
 		}
 		return o, mk(), res
 	}},
-	{"Validator", func(r *verifh.Rand) (map[string]interface{}, map[string]interface{}, []map[string]interface{}) {
+	{kind: "Validator", gen: func(r *verifh.Rand) (map[string]interface{}, map[string]interface{}, []map[string]interface{}) {
 		mk := func() map[string]interface{} {
 			v := map[string]interface{}{"name": "f", "kind": "Validator"}
 			switch r.Intn(3) {
@@ -511,58 +741,175 @@ var c11fKinds = []c11fKindGen{
 		}
 		return mk(), mk(), nil
 	}},
-	{"Mock", func(r *verifh.Rand) (map[string]interface{}, map[string]interface{}, []map[string]interface{}) {
+	{kind: "Mock", gen: func(r *verifh.Rand) (map[string]interface{}, map[string]interface{}, []map[string]interface{}) {
 		mk := func() map[string]interface{} {
 			return map[string]interface{}{"name": "f", "kind": "Mock", "rules": []interface{}{
 				map[string]interface{}{"match": map[string]interface{}{"pathPrefix": r.Pick("/a", "/")}, "code": r.PickInt(200, 201, 202), "body": "x"}}}
 		}
 		return mk(), mk(), nil
 	}},
-	{"RequestAdaptor", func(r *verifh.Rand) (map[string]interface{}, map[string]interface{}, []map[string]interface{}) {
+	{kind: "RequestAdaptor", gen: func(r *verifh.Rand) (map[string]interface{}, map[string]interface{}, []map[string]interface{}) {
 		mk := func() map[string]interface{} {
 			return map[string]interface{}{"name": "f", "kind": "RequestAdaptor", "method": r.Pick("", "PUT"), "header": c11fHeaderAdapt(r)}
 		}
 		return mk(), mk(), nil
 	}},
-	{"ResponseAdaptor", func(r *verifh.Rand) (map[string]interface{}, map[string]interface{}, []map[string]interface{}) {
+	{kind: "ResponseAdaptor", gen: func(r *verifh.Rand) (map[string]interface{}, map[string]interface{}, []map[string]interface{}) {
 		mk := func() map[string]interface{} {
 			return map[string]interface{}{"name": "f", "kind": "ResponseAdaptor", "header": c11fHeaderAdapt(r), "body": r.Pick("", "b")}
 		}
 		return mk(), mk(), nil
 	}},
-	{"CORSAdaptor", func(r *verifh.Rand) (map[string]interface{}, map[string]interface{}, []map[string]interface{}) {
+	{kind: "CORSAdaptor", gen: func(r *verifh.Rand) (map[string]interface{}, map[string]interface{}, []map[string]interface{}) {
 		mk := func() map[string]interface{} {
 			return map[string]interface{}{"name": "f", "kind": "CORSAdaptor", "allowedOrigins": []interface{}{r.Pick("*", "http://a")}, "supportCORSRequest": r.Bool(1, 2)}
 		}
 		return mk(), mk(), nil
 	}},
-	{"Fallback", func(r *verifh.Rand) (map[string]interface{}, map[string]interface{}, []map[string]interface{}) {
+	{kind: "Fallback", gen: func(r *verifh.Rand) (map[string]interface{}, map[string]interface{}, []map[string]interface{}) {
 		mk := func() map[string]interface{} {
 			return map[string]interface{}{"name": "f", "kind": "Fallback", "mockCode": r.PickInt(200, 503), "mockBody": "fb"}
 		}
 		return mk(), mk(), nil
 	}},
-	{"RequestBuilder", func(r *verifh.Rand) (map[string]interface{}, map[string]interface{}, []map[string]interface{}) {
+	{kind: "RequestBuilder", gen: func(r *verifh.Rand) (map[string]interface{}, map[string]interface{}, []map[string]interface{}) {
 		mk := func() map[string]interface{} {
 			return map[string]interface{}{"name": "f", "kind": "RequestBuilder", "template": "method: " + r.Pick("GET", "PUT") + "\nurl: http://x/y\n"}
 		}
 		return mk(), mk(), nil
 	}},
-	{"ResponseBuilder", func(r *verifh.Rand) (map[string]interface{}, map[string]interface{}, []map[string]interface{}) {
+	{kind: "ResponseBuilder", gen: func(r *verifh.Rand) (map[string]interface{}, map[string]interface{}, []map[string]interface{}) {
 		mk := func() map[string]interface{} {
 			return map[string]interface{}{"name": "f", "kind": "ResponseBuilder", "template": "statusCode: " + r.Pick("200", "201") + "\n"}
 		}
 		return mk(), mk(), nil
 	}},
-	{"CertExtractor", func(r *verifh.Rand) (map[string]interface{}, map[string]interface{}, []map[string]interface{}) {
+	{kind: "CertExtractor", gen: func(r *verifh.Rand) (map[string]interface{}, map[string]interface{}, []map[string]interface{}) {
 		mk := func() map[string]interface{} {
 			return map[string]interface{}{"name": "f", "kind": "CertExtractor", "certIndex": r.PickInt(0, -1), "target": r.Pick("subject", "issuer"), "field": "CommonName", "headerKey": "X-C"}
 		}
 		return mk(), mk(), nil
 	}},
+	{kind: "HeaderToJSON", gen: func(r *verifh.Rand) (map[string]interface{}, map[string]interface{}, []map[string]interface{}) {
+		mk := func() map[string]interface{} {
+			hm := []interface{}{map[string]interface{}{"header": r.Pick("X-K", "x-k", "X-Other"), "json": r.Pick("k", "j")}}
+			if r.Bool(1, 3) {
+				hm = append(hm, map[string]interface{}{"header": "X-K", "json": "k2"})
+			}
+			return map[string]interface{}{"name": "f", "kind": "HeaderToJSON", "headerMap": hm}
+		}
+		return mk(), mk(), nil
+	}, req: c11fBodyReqGen},
+	{kind: "MeshAdaptor", gen: func(r *verifh.Rand) (map[string]interface{}, map[string]interface{}, []map[string]interface{}) {
+		mk := func() map[string]interface{} {
+			canary := func() interface{} {
+				return map[string]interface{}{"header": c11fHeaderAdapt(r),
+					"filter": map[string]interface{}{"headers": map[string]interface{}{"X-K": map[string]interface{}{r.Pick("exact", "prefix"): r.Pick("v1", "v2", "v")}}}}
+			}
+			cs := []interface{}{canary()}
+			if r.Bool(1, 3) {
+				cs = append(cs, canary())
+			}
+			return map[string]interface{}{"name": "f", "kind": "MeshAdaptor", "serviceCanaries": cs}
+		}
+		return mk(), mk(), nil
+	}, req: c11fHdrReqGen},
+	{kind: "RemoteFilter", gen: func(r *verifh.Rand) (map[string]interface{}, map[string]interface{}, []map[string]interface{}) {
+		mk := func() map[string]interface{} {
+			m := map[string]interface{}{"name": "f", "kind": "RemoteFilter", "url": "$BACKEND" + r.Pick("/remote", "/remote/x", "/remote205", "/plain")}
+			if r.Bool(1, 2) {
+				m["timeout"] = r.Pick("2s", "5s")
+			}
+			return m
+		}
+		return mk(), mk(), nil
+	}, req: c11fBodyReqGen},
+	{kind: "HeaderLookup", gen: func(r *verifh.Rand) (map[string]interface{}, map[string]interface{}, []map[string]interface{}) {
+		mk := func() map[string]interface{} {
+			m := map[string]interface{}{"name": "f", "kind": "HeaderLookup", "headerKey": r.Pick("X-K", "X-K", "X-None"), "etcdPrefix": r.Pick("pre", "/p2"),
+				"headerSetters": []interface{}{map[string]interface{}{"etcdKey": r.Pick("ext-id", "other", "absent"), "headerKey": "X-Ext"}}}
+			if r.Bool(1, 3) {
+				m["pathRegExp"] = "^/([a-z]+)"
+			}
+			return m
+		}
+		return mk(), mk(), nil
+	}, req: c11fHdrReqGen},
+	{kind: "TopicMapper", gen: func(r *verifh.Rand) (map[string]interface{}, map[string]interface{}, []map[string]interface{}) {
+		mk := func() map[string]interface{} {
+			pol := func(name string) interface{} {
+				return map[string]interface{}{"name": name, "topicIndex": r.PickInt(4, 4, 1),
+					"route": []interface{}{
+						map[string]interface{}{"topic": "to_cloud", "exprs": []interface{}{"log", r.Pick("status", "event")}},
+						map[string]interface{}{"topic": "to_raw", "exprs": []interface{}{".*"}}},
+					"headers@int": map[string]interface{}{"0": "d2s", "1": "tenant", "2": r.Pick("device_type", "dt"), "9": "never"}}
+			}
+			return map[string]interface{}{"name": "f", "kind": "TopicMapper", "matchIndex": r.PickInt(0, 0, 1),
+				"route":    []interface{}{map[string]interface{}{"name": "pd", "matchExpr": r.Pick("d2s", "d2s", "abc")}, map[string]interface{}{"name": "pg", "matchExpr": "g2s"}},
+				"policies": []interface{}{pol("pd"), pol("pg")},
+				"setKV":    map[string]interface{}{"topic": "topic", "headers": "headers"}}
+		}
+		return mk(), mk(), nil
+	}, req: c11fMQTTReqGen},
+	{kind: "MQTTClientAuth", gen: func(r *verifh.Rand) (map[string]interface{}, map[string]interface{}, []map[string]interface{}) {
+		mk := func() map[string]interface{} {
+			salt := r.Pick("", "s")
+			auth := []interface{}{map[string]interface{}{"username": "u", "saltedSha256Pass": c11fSaltedPass(r.Pick("p", "p", "q"), salt)}}
+			if r.Bool(1, 3) {
+				auth = append(auth, map[string]interface{}{"username": "x", "saltedSha256Pass": c11fSaltedPass("p", salt)})
+			}
+			return map[string]interface{}{"name": "f", "kind": "MQTTClientAuth", "salt": salt, "auth": auth}
+		}
+		return mk(), mk(), nil
+	}, req: c11fConnectReqGen},
+	{kind: "ConnectControl", gen: func(r *verifh.Rand) (map[string]interface{}, map[string]interface{}, []map[string]interface{}) {
+		mk := func() map[string]interface{} {
+			m := map[string]interface{}{"name": "f", "kind": "ConnectControl"}
+			if r.Bool(2, 3) {
+				m["bannedClients"] = []interface{}{r.Pick("c1", "c2")}
+			}
+			if r.Bool(2, 3) {
+				m["bannedTopics"] = []interface{}{r.Pick("t/1", "t/2")}
+			}
+			if r.Bool(1, 2) {
+				m["bannedClientRe"] = r.Pick("^bad", "^c")
+			}
+			if r.Bool(1, 3) {
+				m["bannedTopicRe"] = "^/d2s/"
+			}
+			return m
+		}
+		return mk(), mk(), nil
+	}, req: c11fMQTTReqGen},
+}
+
+// c11fInventory reports which kinds this harness has generators for (each must be registered and
+// its generated spec must create an instance) and which kinds are registered in this test binary.
+// The judge compares the former with Model.HotUpdate.exercisedFilterKinds.
+func c11fInventory() c11fObs {
+	obs := c11fObs{Generators: []string{}, Registered: []string{}}
+	r := verifh.NewRand(1)
+	for _, kg := range c11fKinds {
+		old, _, _ := kg.gen(r)
+		name := kg.kind
+		if k, _ := old["kind"].(string); k != kg.kind || filters.GetKind(k) == nil {
+			name = "!" + kg.kind // label and generated spec disagree, or the kind is not registered
+		}
+		obs.Generators = append(obs.Generators, name)
+	}
+	sort.Strings(obs.Generators)
+	filters.WalkKind(func(k *filters.Kind) bool {
+		obs.Registered = append(obs.Registered, k.Name)
+		return true
+	})
+	sort.Strings(obs.Registered)
+	return obs
 }
 
 func c11fGen(r *verifh.Rand, i int) interface{} {
+	if i == 0 {
+		return c11fInput{Kind: "@inventory", Pre: []c11fReq{}, Ops: []c11fOp{}}
+	}
 	// Half of the cases exercise the kind that moves state between generations.
 	var kg c11fKindGen
 	if r.Bool(1, 2) {
@@ -589,15 +936,19 @@ func c11fGen(r *verifh.Rand, i int) interface{} {
 		}
 		in.Res = nil
 	}
+	reqGen := kg.req
+	if reqGen == nil {
+		reqGen = c11fReqGen
+	}
 	for k := r.Range(0, 4); k > 0; k-- {
-		in.Pre = append(in.Pre, c11fReqGen(r))
+		in.Pre = append(in.Pre, reqGen(r))
 	}
 	for k := r.Range(1, 8); k > 0; k-- {
 		g := 0
 		if r.Bool(1, 3) {
 			g = 1
 		}
-		in.Ops = append(in.Ops, c11fOp{G: g, Req: c11fReqGen(r)})
+		in.Ops = append(in.Ops, c11fOp{G: g, Req: reqGen(r)})
 	}
 	return in
 }
